@@ -447,7 +447,9 @@ theorem pushSkipped_spec {src : List Char} {st st' : State} {attrHis : List Nat}
       st'.lastPos = hi ∧
       st'.lineNumber = st.lineNumber + countNl w + countNl (trim sn) ∧
       st'.skipped = st.skipped ++
-        [(min (attrsEnd src attrHis + 1) (lineOf src mainLo), st'.lineNumber + 1)] := by
+        [(st.lineNumber + countNl w + 1 +
+            (min (attrsEnd src attrHis + 1) (lineOf src mainLo) - lineOf src lo),
+          st'.lineNumber + 1)] := by
   unfold pushSkipped at h
   split at h
   · cases h
@@ -559,14 +561,16 @@ theorem popNewline_inv {st st' : State} (h : popNewline st = some st') (hinv : s
 
 theorem init_inv (p : Nat) : (State.init p).Inv := rfl
 
-/-- Under the invariant the recorded `hi` is the last output line of the skipped text, and `lo` is
-the source-side formula. -/
+/-- Under the invariant the recorded pair is, in lines of this visitor's buffer: the first line of
+the copied text plus the source-side offset `min(attrs_end+1, line(main_lo)) - line(item_lo)`, and
+the last line of the copied text. -/
 theorem pushSkipped_range {src : List Char} {st st' : State} {attrHis : List Nat}
     {lo hi mainLo : Nat} {w : List Char}
     (h : pushSkipped src st attrHis lo hi mainLo w = some st') (hinv : st.Inv) :
     ∃ sn, snippet src lo hi = some sn ∧
       st'.skipped = st.skipped ++
-        [(min (attrsEnd src attrHis + 1) (lineOf src mainLo),
+        [((outLines (st.buffer ++ w) (trim sn)).1 +
+            (min (attrsEnd src attrHis + 1) (lineOf src mainLo) - lineOf src lo),
           (outLines (st.buffer ++ w) (trim sn)).2)] := by
   obtain ⟨sn, hsn, -, -, -, hl, hs⟩ := pushSkipped_spec h
   refine ⟨sn, hsn, ?_⟩
@@ -574,22 +578,48 @@ theorem pushSkipped_range {src : List Char} {st st' : State} {attrHis : List Nat
   simp only [State.Inv] at hinv
   simp only [outLines, countNl_append, hinv]
 
-theorem pushSkipped_range_unmoved {src : List Char} {st st' : State} {attrHis : List Nat}
+/-- Item case (`main_span = item_span`): the offset is 0, the recorded pair is exactly the first
+and last buffer line of the copied text — whether or not the text moved. -/
+theorem pushSkipped_range_item {src : List Char} {st st' : State} {attrHis : List Nat}
     {lo hi : Nat} {w : List Char}
-    (h : pushSkipped src st attrHis lo hi lo w = some st') (hinv : st.Inv)
-    (hattr : ∃ a ∈ attrHis, lo ≤ a)
-    (hstay : countNl (st.buffer ++ w) = countNl (src.take lo)) :
+    (h : pushSkipped src st attrHis lo hi lo w = some st') (hinv : st.Inv) :
     ∃ sn, snippet src lo hi = some sn ∧
       st'.skipped = st.skipped ++ [outLines (st.buffer ++ w) (trim sn)] := by
   obtain ⟨sn, hsn, hs⟩ := pushSkipped_range h hinv
   refine ⟨sn, hsn, ?_⟩
   rw [hs]
-  obtain ⟨a, ha, hle⟩ := hattr
-  have h1 := attrsEnd_ge src ha
-  have h2 := lineOf_mono src hle
-  have : min (attrsEnd src attrHis + 1) (lineOf src lo) = lineOf src lo := by omega
+  have : min (attrsEnd src attrHis + 1) (lineOf src lo) - lineOf src lo = 0 := by omega
   rw [this]
-  simp only [outLines, lineOf, hstay]
+  simp [outLines]
+
+theorem countNl_take_snippet {src : List Char} {lo hi : Nat} {sn : List Char}
+    (h : snippet src lo hi = some sn) :
+    countNl (src.take hi) = countNl (src.take lo) + countNl sn := by
+  obtain ⟨h1, h2, h3, h4⟩ := snippet_spec h
+  have : src.take hi = src.take lo ++ sn := by
+    conv => lhs; rw [h4]
+    have hl : (src.take lo ++ sn).length = hi := by simp; omega
+    rw [List.take_append_of_le_length (by omega)]
+    rw [List.take_of_length_le (by omega)]
+  rw [this, countNl_append]
+
+/-- Statement case (`item_lo ≤ main_lo ≤ item_hi`, untrimmed snippet): the recorded `lo` lies
+between the first and the last buffer line of the copied text. -/
+theorem pushSkipped_range_within {src : List Char} {st st' : State} {attrHis : List Nat}
+    {lo hi mainLo : Nat} {w sn : List Char}
+    (h : pushSkipped src st attrHis lo hi mainLo w = some st') (hinv : st.Inv)
+    (hsn : snippet src lo hi = some sn) (htrim : trim sn = sn) (hm : mainLo ≤ hi) :
+    ∃ a, st'.skipped = st.skipped ++ [(a, (outLines (st.buffer ++ w) sn).2)] ∧
+      (outLines (st.buffer ++ w) sn).1 ≤ a ∧ a ≤ (outLines (st.buffer ++ w) sn).2 := by
+  obtain ⟨sn', hsn', hs⟩ := pushSkipped_range h hinv
+  rw [hsn] at hsn'
+  cases hsn'
+  rw [htrim] at hs
+  refine ⟨_, hs, by omega, ?_⟩
+  have h1 := countNl_take_snippet hsn
+  have h2 := countNl_take_le src mainLo hi hm
+  simp only [outLines, lineOf]
+  omega
 
 /-! ## Whole-file decision -/
 
